@@ -387,7 +387,7 @@ theorem fail_status (s : St) (e : EErr) : (s.fail e).status = s.status := by
 
 theorem assignStep_status (canon : String) (cut : Bool) (a : ActionRef) (s : St) :
     (assignStep canon cut a s).status = s.status := by
-  unfold assignStep; split <;> rfl
+  unfold assignStep; (repeat' split) <;> rfl
 
 theorem finishBuiltin_status (h : Hooks) (hok : HooksStatusOK h) (canon : String) (a : ActionRef) (s2 : St) :
     (finishBuiltin h canon a s2).1.status = s2.status := by
@@ -452,7 +452,7 @@ theorem execActionsF_status (h : Hooks) (hok : HooksStatusOK h) :
   | succ f ih =>
     intro as evType s
     unfold execActionsF
-    exact foldl_actStep_status h hok _ ih false evType as (s, false)
+    exact foldl_actStep_status h hok _ (fun as ev s => by rw [endExpansion_status]; exact ih as ev s) false evType as (s, false)
 
 /-- **actions never change `status`** (user code, `assign`, `choose`, `raise`), as long as the send
     hooks do not -/
